@@ -317,6 +317,40 @@ def stdlib_section_c03(tier, seed):
     return stdlib_section(tier, seed, mode='c03')
 
 
+def printer_coverage(vals):
+    """which of the printers the package registers (translator.shipped_printers, the list C07.printer_inventory is about) run when the
+    corpus is printed: the functions entered inside the package, by name"""
+    import os
+    import translator
+    pkg = os.path.dirname(os.path.abspath(pp.__file__))
+    called = set()
+    mon = sys.monitoring
+    tool = 4
+
+    def cb(code, off):
+        if code.co_filename.startswith(pkg):
+            called.add(code.co_name)
+        return mon.DISABLE
+    mon.use_tool_id(tool, 'verif-coverage')
+    mon.register_callback(tool, mon.events.PY_START, cb)
+    mon.set_events(tool, mon.events.PY_START)
+    try:
+        with warnings.catch_warnings():
+            warnings.simplefilter('ignore')
+            for v in list(vals) + [[frozenset([1]), 1.5, ...]]:
+                try:
+                    pp.pformat(v)
+                except Exception:
+                    pass
+    finally:
+        mon.set_events(tool, 0)
+        mon.register_callback(tool, mon.events.PY_START, None)
+        mon.restart_events()
+        mon.free_tool_id(tool)
+    inv = translator.shipped_printers()
+    return [x for x in inv if x.split(':')[-1] in called], [x for x in inv if x.split(':')[-1] not in called]
+
+
 def stdlib_section(tier, seed, mode='c07'):
     rng = random.Random(seed * 61 + 18)
     iseed = seed * 67 + 1
@@ -338,8 +372,11 @@ def stdlib_section(tier, seed, mode='c07'):
             nt += b
             mism.extend(mm)
             fails.extend(ff)
+    invoked, not_invoked = printer_coverage(vals)
     stats = {'evaluations': tot, 'distinct_nontrivial': nt, 'instances': len(vals), 'cases': len(cases), 'mismatches': len(mism),
              'types': sorted({type(v).__name__ for v in vals}),
+             'shipped_printers_invoked_by_this_corpus': invoked,
+             'shipped_printers_not_invoked_by_this_corpus': not_invoked,
              'samples': [{'value': repr(vals[10])}, {'value': repr(vals[50])[:100]}],
              'rule': 'instances of every stdlib type with a bundled printer (boundary values: zero / negative / min / max timedeltas, leading-zero time fields, fold=1, '
                      'fixed-offset / named / pytz zones, empty and bounded deques, ChainMap shapes, ...) alone and in nesting contexts x layouts incl. very wide ones; '
